@@ -21,6 +21,20 @@ CHECKS = {
             "property, so exhaustive schedule enumeration is the matching level.",
             "httpx's LineDecoder/TextDecoder are part of the subject as shipped in /venv; streams longer than 3 records and >3 simultaneous split points are outside the bound.",
             "4 C18"),
+    "C02": ("exploration", "bounded exhaustive enumeration of all small schema graphs (every edge kind, every cycle shape, every declaration order, prefix-related names) against an independent reference resolver",
+            "Every graph of G(2,1), G(2,2), G(3,1) (9 edge kinds incl. allOf, self loops, 2- and 3-cycles; all declaration orders; neutral and prefix-related names) is loaded "
+            "through the real loader, and for the smaller slices generated to code; the IR field sets and the emitted dataclasses (read through ast) must equal what a boring "
+            "reference resolver computes from the raw document (one model per schema, one field per own/inherited property, wire key, required flag, structural kind).",
+            "Trusts mc/ref/schema.py as the meaning of a schema document; graphs with more than 3 schemas / 2 edges per schema are outside the bound. "
+            "Known defective inputs are listed one by one in known_sets/ (exact witness sets), every other failing input is a violation.",
+            "4 C02"),
+    "C08": ("model_checking", "explicit-state exploration of the real cycle tracker: every enter/exit transition of the real parser observed on every small graph x depth limit; invariants at top-level boundaries and at rest",
+            "Every graph of the bounded space x PYOPENAPI_MAX_DEPTH in {default,1,2,3} and every chain/nesting of depth {L-1,L,L+1,2L,400} is parsed by the real loader with the "
+            "tracker's enter/exit functions wrapped: each call is one observed transition of the tracker state machine (states/transitions reported). After each top-level schema "
+            "depth==0, stack empty, nothing IN_PROGRESS; at the end every schema terminal and every declared name present; RecursionError/time-out are violations.",
+            "Wrapping relies on module attributes unified_enter_schema/unified_exit_schema/_parse_schema being looked up at call time (as they are today). "
+            "The TLA+ tracker model + per-edge conformance replay planned in DESIGN.md is an additional layer (see evidence key tlc).",
+            "4 C08"),
 }
 
 NOT_YET = {}
